@@ -34,6 +34,12 @@ var staticFaults = []staticFiller{
 	{"int()", "num"}, {"strlen(key, value)", "num"}, {"nosuchnum(key)", "num"}, {"len()", "num"}, {"int(nosuch(key))", "num"}, {"l2_distance(list(1))", "num"},
 	{"is_int()", "bool"}, {"is_float(key, key)", "bool"}, {"nosuchbool(key)", "bool"},
 	{"count(1)", "num"}, // an aggregate where only scalars are allowed (filters, arguments of scalar functions in filters)
+	// `=` / `!=` on lists and JSON values; `in` with a left operand that is not a text or a number
+	{"(split(key, ',') = split(key, ','))", "bool"}, {"(json(value) != json(value))", "bool"}, {"(list(1) = list(1))", "bool"},
+	{"(true in (true, false))", "bool"}, {"((key = 'a') in (true))", "bool"}, {"(nosuchname in (a, b))", "bool"}, {"(json(value) in (json(value)))", "bool"},
+	// static argument types the function bodies themselves test (on every evaluation)
+	{"substr(key, 'a', 1)", "str"}, {"substr(key, 0, 'b')", "str"}, {"substr(key, 0, key)", "str"}, {"join(1, key)", "str"}, {"join(strlen(key), key)", "str"}, {"split(key, 1)[0]", "str"},
+	{"len(split(key, 1))", "num"}, {"strlen(substr(key, 1, 'x'))", "num"}, {"is_int(join(2, key))", "bool"},
 }
 
 var staticGood = []staticFiller{
@@ -56,6 +62,9 @@ var staticContexts = []struct{ tmpl, typ string }{
 	{"select key where %s between 1 and 5", "num"}, {"select key where 1 between %s and 5", "num"}, {"select key where 1 between 0 and %s", "num"}, {"select key where str(%s) = '1'", "num"},
 	{"select key where !(%s > 1)", "num"}, {"select %s as n where key = 'a'", "num"}, {"select key, %s * 2 as n where n > 1", "num"}, {"select key where substr(key, 0, %s) = 'a'", "num"},
 	{"select key, sum(%s) where key ^= 'a' group by key", "num"}, {"select key where l2_distance(list(1, 2), list(%s, 2)) > 0", "num"},
+	// places of a select field where the aggregation plan does not look for aggregates: an aggregate there is a fault
+	{"select key, str(%s) where key ^= 'a'", "num"}, {"select !(%s > 1) as b where key ^= 'a'", "num"}, {"select key, 1 between %s and 5 where key ^= 'a'", "num"},
+	{"select key, 2 in (%s, 3) where key ^= 'a'", "num"}, {"select key, sum(int(str(%s))) where key ^= 'a' group by key", "num"},
 }
 
 // statement-form faults that are not operand substitutions
@@ -63,6 +72,15 @@ var staticForms = []string{
 	"put ('a', value)", "put ('a', upper(value))", "put ('a', 'b'), ('c', value + 'x')", "remove key", "remove upper(key)", "remove value", "remove 'a', key + 'x'",
 	"select * where key", "select * where 1", "select * where upper(key)", "select * where key + 'a'", "delete where value", "delete where strlen(key)",
 	"select key, sum(count(1)) where key = 'a'", "select key where key = 'a' order by nosuch", "select split(key, ',') as l where key = 'a' order by l",
+	// the type of a select field that uses a field name is only final once that name is resolved
+	"select key as a, a + 'x' as s where s > 1", "select a + 'x' as s, key as a where s = 1", "select key as a, a + 'x' as s where s + 1 > 2",
+	"select b + 1 as s, a + 'y' as b, key as a where key = 'k'", "select key as a, a + 'x' as s, s * 2 as t where key = 'k'",
+}
+
+// well-typed statements that are not operand substitutions: must be accepted and run without an operand-type error
+var staticGoodForms = []string{
+	"select key as a, a + 'x' as s where s > 'b'", "select a + 'x' as s, key as a where s ^= 'b'", "select value as f1, (f1 + (f1 + value)) as f2 where f2 ~= '^a'",
+	"select key as a, a + 'x' as s, upper(s) as t where t = 'AX'", "select strlen(key) as n, n + 1 as m where m > 2", "select n + 1 as m, strlen(key) as n where m > 2",
 }
 
 func errIsOperandType(err error) bool {
@@ -80,8 +98,8 @@ func errIsOperandType(err error) bool {
 
 func runSTATIC(e *Env) (*Summary, error) {
 	start := time.Now()
-	rule := fmt.Sprintf("template product: %d contexts (hole at top level, under !, under &/|/and/or, in function arguments, IN lists, BETWEEN bounds, field access, select fields, aliases, put/remove operands, aggregate arguments) × %d faulty operands of the hole's nominal type (operator/operand-type faults, non-Boolean ! operands, unknown functions, wrong argument counts, aggregates in scalar position) — each must be rejected by BuildPlan with zero storage calls on 3 different stores; × %d well-typed operands — each must be accepted and run without an operand-type error; plus %d statement-form faults; exhaustive over the product; non-trivial = a faulty statement; distinct by statement text",
-		len(staticContexts), len(staticFaults), len(staticGood), len(staticForms))
+	rule := fmt.Sprintf("template product: %d contexts (hole at top level, under !, under &/|/and/or, in function arguments, IN lists, BETWEEN bounds, field access, select fields, aliases, put/remove operands, aggregate arguments) × %d faulty operands of the hole's nominal type (operator/operand-type faults, non-Boolean ! operands, unknown functions, wrong argument counts, aggregates in scalar position) — each must be rejected by BuildPlan with zero storage calls on 3 different stores; × %d well-typed operands — each must be accepted and run without an operand-type error; plus %d statement-form faults and %d well-typed statement forms (field names whose type depends on other field names); exhaustive over the product; non-trivial = a faulty statement; distinct by statement text",
+		len(staticContexts), len(staticFaults), len(staticGood), len(staticForms), len(staticGoodForms))
 	col := NewCollector("STATIC", e.Tier, e.Seed, rule)
 	col.sum.Exhaustive = true
 	saved := kvql.PlanBatchSize
@@ -96,7 +114,7 @@ func runSTATIC(e *Env) (*Summary, error) {
 	for _, c := range staticContexts {
 		for _, f := range staticFaults {
 			if f.typ == c.typ {
-				if f.expr == "count(1)" && (strings.Contains(c.tmpl, "sum(") || strings.HasPrefix(c.tmpl, "select %s") || strings.HasPrefix(c.tmpl, "select key, %s")) {
+				if f.expr == "count(1)" && (strings.Contains(c.tmpl, "sum(%s)") || strings.HasPrefix(c.tmpl, "select %s") || strings.HasPrefix(c.tmpl, "select key, %s")) {
 					continue // covered by the nested-aggregate form below with its own message
 				}
 				jobs = append(jobs, job{fmt.Sprintf(c.tmpl, f.expr), true})
@@ -117,6 +135,9 @@ func runSTATIC(e *Env) (*Summary, error) {
 	}
 	for _, q := range staticForms {
 		jobs = append(jobs, job{q, true})
+	}
+	for _, q := range staticGoodForms {
+		jobs = append(jobs, job{q, false})
 	}
 	err := e.parallel(func(w int, d *Driver) error {
 		for ji := w; ji < len(jobs); ji += e.Workers {
